@@ -511,6 +511,10 @@ class Replayer:
                 self.hold(a, "set_current(copy=False)", optin=True)
         elif op == "update_current":
             dd = {"x": self.new("x", t), "logl": self.new("logl", t), "beta": 1.0, "logz": 0.0}
+            if cp and getattr(self, "_newcount", 0) % 2 == 1:
+                # scalars held as 0-d numpy arrays (what np.asarray(0.25) or an array reduction gives): arrays like any other -
+                # the caller keeps them and overwrites them below
+                dd["beta"], dd["logz"] = np.asarray(1.0), np.asarray(0.0)
             sm.update_current(dd, copy=cp)
             for kk in AK:
                 if cp:
@@ -519,7 +523,7 @@ class Replayer:
                     self.optin[kk] = dd[kk]
                     self.hold(dd[kk], "update_current(copy=False)", optin=True)
             if cp:
-                free = [dd["x"], dd["logl"]]
+                free = [dd["x"], dd["logl"]] + [v for v in (dd["beta"], dd["logz"]) if isinstance(v, np.ndarray)]
         elif op == "unset_current":
             sm.set_current(k, None)
             if k == "beta":
